@@ -754,7 +754,7 @@ func c20Tools(x *xctx) *violation {
 		tools += ",llvm-symbolizer:/sim/testdata/bin"
 	}
 	toggler := t.Bool(K, 40)
-	var finalState string
+	var finalState, lazyState string
 	run := func(cfg simrt.Config, concurrent bool) ([][]string, simrt.Result, error) {
 		got := make([][]string, ntasks)
 		var openErr error
@@ -803,6 +803,15 @@ func c20Tools(x *xctx) *violation {
 				simrt.Join(h1)
 				simrt.Join(h2)
 				finalState = bu.String()
+				// A Binutils nobody has configured yet: its first user looks the
+				// tools up lazily (PATH search, `objdump --version`) while another
+				// caller sets an option. The option must survive.
+				fresh := &binutils.Binutils{}
+				r1 := simrt.GoJoinable("firstuse", func() { _ = fresh.String() })
+				r2 := simrt.GoJoinable("setfast2", func() { fresh.SetFastSymbolization(true) })
+				simrt.Join(r1)
+				simrt.Join(r2)
+				lazyState = fresh.String()
 			}
 			f.Close()
 		})
@@ -856,6 +865,9 @@ func c20Tools(x *xctx) *violation {
 	}
 	if !strings.Contains(finalState, "fast=true") || !strings.Contains(finalState, `nm="/sim/testdata/nmdir/nm"`) {
 		return violf("tools-config-lost", "after concurrent SetTools(...nm:/sim/testdata/nmdir) and SetFastSymbolization(true) had both returned, the configuration is %s: one of the two updates was lost", finalState)
+	}
+	if !strings.Contains(lazyState, "fast=true") {
+		return violf("tools-config-lost", "SetFastSymbolization(true) on a Binutils whose first (lazy) tool lookup was in progress in another task had returned, yet the configuration is %s", lazyState)
 	}
 	if dieAt != 0 {
 		x.fault("exec:tool-crashes-mid-session", 1)
